@@ -111,6 +111,19 @@ func findCommodityReferences(symbol string, resolved *include.ResolvedJournal, c
 						Range: *astRangeToProtocol(p.Amount.Commodity.Range),
 					})
 				}
+				// a cost and a balance assertion name a commodity too
+				if p.Cost != nil && p.Cost.Amount.Commodity.Symbol == symbol {
+					locations = append(locations, protocol.Location{
+						URI:   pathToURI(filePath),
+						Range: *astRangeToProtocol(p.Cost.Amount.Commodity.Range),
+					})
+				}
+				if p.BalanceAssertion != nil && p.BalanceAssertion.Amount.Commodity.Symbol == symbol {
+					locations = append(locations, protocol.Location{
+						URI:   pathToURI(filePath),
+						Range: *astRangeToProtocol(p.BalanceAssertion.Amount.Commodity.Range),
+					})
+				}
 			}
 		}
 	}
